@@ -159,7 +159,9 @@ def gen_snmp(r):
     if tag in (0xA3, 0xA2) or r.random() < 0.1:
         values = [r.choice([ber(5, b""), ber_int(r.randrange(-2 ** 31, 2 ** 31)), ber(4, bytes(r.randrange(256) for _ in range(r.randrange(0, 300)))), ber_oid(rnd_oid(r)), ber(0x40, bytes(4)), ber(0x41, b"\xff" * 5),
                             ber(0x43, b"\x01\x00"), ber(0x46, bytes(9)), ber(0x80, b""), ber(0x82, b""), ber(r.randrange(256), bytes(r.randrange(256) for _ in range(r.randrange(0, 20))))]) for _ in oids]
-    comm = r.choice([b"public", b"public", b"public", b"", b"private", b"p" * 300, bytes(r.randrange(256) for _ in range(r.randrange(0, 40)))])
+    comm = r.choice([b"public", b"public", b"public", b"", b"private", b"p" * 300, bytes(r.randrange(256) for _ in range(r.randrange(0, 40))),
+                    # boundary lengths around powers of two (fixed-size community buffers)
+                    b"c" * r.choice([31, 32, 33, 63, 64, 65, 126, 127, 128, 129, 130, 255, 256, 257, 1000])])
     ver = r.choice([0, 0, 1, 1, 3, 2, -1, 1 << 40])
     err, erridx = (r.choice([0, 0, 1, 5, 50, -1, 1 << 31]), r.choice([0, 0, 1, 100, -1]))
     return snmp_msg(tag, r.randrange(-2 ** 31, 2 ** 31), oids, comm, ver, err, erridx, values)
